@@ -173,7 +173,9 @@ pub fn exec(p: &[&str], scratch: &str) -> String {
             // file exactly (no gap, no overlap, no byte unwritten)
             verif::take_log();
             verif::set_logging(true);
+            crate::fileops::PLAIN.store(true, std::sync::atomic::Ordering::SeqCst);
             let inner = crate::fileops::exec(&p[1..], scratch);
+            crate::fileops::PLAIN.store(false, std::sync::atomic::Ordering::SeqCst);
             verif::set_logging(false);
             let log = verif::take_log();
             if inner.starts_with("ERR") || inner.starts_with("UNKNOWN") { return format!("INNER {}", inner); }
